@@ -36,10 +36,25 @@ def rmap(rng, model, n, depth=None, signs=True):
     """valid Clifford map on n qubits: random rotations of the identity table + random sign flips"""
     # structured as well as scrambled tables: a fifth of the draws are shallow (0-2 rotations of the identity table: basis / product-like),
     # and the sign pattern is one of: independent coins on all rows, only on the Z-images (stabilizer signs), only on the X-images, a single row, none
-    if depth is None:
-        depth = rng.randint(0, 2) if rng.random() < 0.2 else rng.randint(0, 3 * n + 2)
-    gms = [[rpauli(rng, n, herm=True, nonzero=True), None] for _ in range(depth)]
-    rows = model.call('rotate_seq', gms, identity_rows(n))
+    if depth is None and rng.random() < 0.12:
+        # a signed PERMUTATION of the single-qubit Paulis: relabel the qubits and permute X/Y/Z on each (Hadamard-, SWAP-, cyclic-relabelling-like maps,
+        # of order up to 6 or more): every row has weight 1 -- the maps for which an inverse is "just a transpose"
+        perm = list(range(n))
+        rng.shuffle(perm)
+        rows = []
+        for q in range(n):
+            t = perm[q]
+            imgs = rng.choice([((1, 0), (0, 1)), ((0, 1), (1, 0)), ((1, 1), (0, 1)), ((1, 0), (1, 1)), ((0, 1), (1, 1)), ((1, 1), (1, 0))])   # images of X, Z: any anticommuting pair
+            for im in imgs:
+                g = [0] * (2 * n)
+                g[2 * t], g[2 * t + 1] = im
+                rows.append([g, 0])
+        depth = 0
+    else:
+        if depth is None:
+            depth = rng.randint(0, 2) if rng.random() < 0.2 else rng.randint(0, 3 * n + 2)
+        gms = [[rpauli(rng, n, herm=True, nonzero=True), None] for _ in range(depth)]
+        rows = model.call('rotate_seq', gms, identity_rows(n))
     if signs:
         mode = rng.choice(['all', 'all', 'all', 'z_rows', 'x_rows', 'one', 'none'])
         if mode == 'all':
